@@ -346,8 +346,9 @@ def parse_cdl(text):
 ATT_SUFFIX = {1: 'b', 3: 's', 4: '', 5: 'f', 6: '', 7: 'UB', 8: 'US', 9: 'U', 10: 'LL', 11: 'ULL'}
 
 
-def cdl_vs_logical(cdl, h, b):
-    """compare a parsed dump with the decoded file (header h of bytes b); -> list of differences"""
+def cdl_vs_logical(cdl, h, b, mask=None):
+    """compare a parsed dump with the decoded file (header h of bytes b); -> list of differences.
+    mask: {variable name: [True for a never-written, unfilled element (unspecified content), ...]} or None"""
     bad = []
     lay, recsize = layout(h)
     if cdl['fmt'] != h.fmt:
@@ -394,6 +395,8 @@ def cdl_vs_logical(cdl, h, b):
             continue
         if got is None:
             bad.append('no data printed for %s' % vn)
+        elif mask is not None and (vn not in mask or (v['xt'] == 2 and any(mask[vn]))):
+            continue        # unspecified cells in a text variable / no information: the printed rows cannot be aligned
         elif v['xt'] == 2:
             rowlen = shape[-1] if shape and shape[-1] else (len(raw) if not shape or len(shape) == 1 else 1)
             if len(shape) == 1 and isrec:
@@ -404,8 +407,10 @@ def cdl_vs_logical(cdl, h, b):
                 bad.append('data of %s: %r != %r' % (vn, got, exp))
         else:
             ev = unpack_vals(v['xt'], raw)
-            if got[0] != 'num' or len(got[1]) != len(ev) or any(g != '_' and float(g) != float(e) and not (float(g) != float(g) and float(e) != float(e))
-                                                                  for g, e in zip(got[1], ev)):
+            mk = (mask or {}).get(vn) or [False] * len(ev)
+            if got[0] != 'num' or len(got[1]) != len(ev) or len(mk) != len(ev) or \
+               any(not u and g != '_' and float(g) != float(e) and not (float(g) != float(g) and float(e) != float(e))
+                   for g, e, u in zip(got[1], ev, mk)):
                 bad.append('data of %s: %s != %s' % (vn, got[1][:12], ev[:12]))
     return bad
 
@@ -1659,7 +1664,7 @@ def _run(V, rng, tier, seed, tree, wd):
         npr = (1, 2, 3)[i % 3]
         path = os.path.join(wd, 'p%d.nc' % i)
         hints = rng.choice(['-', '-', 'nc_var_align_size=32', 'nc_header_align_size=256;nc_record_align_size=64'])
-        p = apigen.gen_rw_program(SplitMix64(rng.next()), path, npr, hints=hints, reopen=False, dump=False)
+        p = apigen.gen_rw_program(SplitMix64(rng.next()), path, npr, hints=hints, reopen=True, dump=True)
         progs.append((i, npr, path, p))
 
     def run_prog(x):
@@ -1671,7 +1676,25 @@ def _run(V, rng, tier, seed, tree, wd):
         rc, impl, err = apicmp.run_impl(apirun, spath, npr, d, timeout=120, alarm=60)
         if rc != 0 or not os.path.exists(path):
             return i, None
-        return i, dict(val=run_validator(T, path), cdf=run_cdfdiff(T, path, path), mpi=run_ncmpidiff(T, path, path, npr),
+        # never-written, unfilled elements have unspecified content (DESIGN I.5): the abstract specification prints `?`
+        # for them in the final `get var` of every variable; they are masked in the comparison of the dump with the file
+        mask = None
+        try:
+            if os.path.exists(apicmp.APIDRV):
+                src_, spec, serr = apicmp.run_spec(spath, npr)
+                mask, cur = {}, None
+                for l in spec:
+                    t = l.split()
+                    if len(t) < 4 or not t[0].isdigit() or int(t[0]) not in p.dump_steps or t[1] != '0':
+                        continue
+                    if t[2] == 'inq_var' and len(t) > 5:
+                        cur = t[5]
+                    elif t[2] == 'get' and cur is not None and ':' in t:
+                        mask[cur] = [x == '?' for x in t[t.index(':') + 1:]]
+                        cur = None
+        except Exception:
+            mask = None
+        return i, dict(mask=mask, val=run_validator(T, path), cdf=run_cdfdiff(T, path, path), mpi=run_ncmpidiff(T, path, path, npr),
                        off=run([T['ncoffsets'], path]), dump=run([T['ncmpidump'], '-p', '9,17', path]))
     for (i, npr, path, p), (_, r) in zip(progs, pmap(run_prog, progs, workers=4)):
         if r is None:
@@ -1701,7 +1724,14 @@ def _run(V, rng, tier, seed, tree, wd):
         if r['off'][0] != 0 or size != hl or offs != exp or (h.vars and ext != min(v['begin'] for v in h.vars)):
             fail('ncoffsets-disagrees', 'ncoffsets differs from the independent decoder', dict(replay, ncoffsets=(size, ext, offs), decoder=(hl, exp)))
         try:
-            dd = cdl_vs_logical(parse_cdl(r['dump'][1]), h, b) if r['dump'][0] == 0 else ['exit status %d' % r['dump'][0]]
+            if r.get('mask') is None:
+                count('prog-file without specification mask: values not compared')
+                pc_ = parse_cdl(r['dump'][1])
+                pc_['nodata'] = True
+                dd = cdl_vs_logical(pc_, h, b) if r['dump'][0] == 0 else ['exit status %d' % r['dump'][0]]
+            else:
+                count('prog-file unspecified cells masked', sum(sum(m_) for m_ in r['mask'].values()))
+                dd = cdl_vs_logical(parse_cdl(r['dump'][1]), h, b, mask=r['mask']) if r['dump'][0] == 0 else ['exit status %d' % r['dump'][0]]
         except Exception as ex:
             dd = ['CDL reader failed: %r' % (ex,)]
         if dd:
